@@ -17,7 +17,7 @@ META = {
              'its first column. Rejection cases = (ordered pair of algebras differing in the metric of some generator, in dimension or in basis; '
              'binary operator or registered function): returning any value is a violation, any exception satisfies the clause. '
              'Distinct = distinct (A, op, keys) resp. (A, B, op).'),
-    'assumptions': ['kvm/iso.py is the map of the statement', 'algebras differing only in start_index or options are outside the rejection clause'],
+    'assumptions': ['kvm/iso.py is the map of the statement', 'algebras differing only in start_index or options are outside the rejection clause (the repository tests rely on start-index twins comparing equal)'],
 }
 SHARD_DEADLINE = {'quick': 400, 'thorough': 3400}
 CASE_TIMEOUT = {'quick': 25, 'thorough': 90}
@@ -53,6 +53,9 @@ def plan(tier, seed):
     for s in (0, 1, 2):
         for base in ({'p': 2, 'q': 1, 'r': 0}, {'p': 2, 'q': 0, 'r': 1}, {'signature': [-1, 0, 1]}, {'signature': [1, -1]}):
             A.append(dict(base, start_index=s))
+    # custom bases whose generator labels are hexadecimal letters (what Algebra(d, start_index=10) itself reports as its basis)
+    A.append({'signature': [1, -1], 'basis': ['e', 'eb', 'ea', 'eab']})
+    A.append({'signature': [1, 1, 0], 'basis': ['e', 'ea', 'eb', 'ec', 'eab', 'eca', 'ebc', 'eabc']})
     U = [{'kind': 'relabel', 'cfg': c, 'per_op': 3 if tier == 'quick' else 3} for c in A]
     # rejection: ordered pairs among ~30 algebras d <= 3
     R = [{'p': 2, 'q': 0, 'r': 0}, {'p': 1, 'q': 1, 'r': 0}, {'signature': [-1, 1]}, {'signature': [1, -1]}, {'p': 0, 'q': 2, 'r': 0},
@@ -62,7 +65,10 @@ def plan(tier, seed):
          {'p': 0, 'q': 0, 'r': 1}, {'signature': [1, 1], 'basis': ['e', 'e2', 'e1', 'e21']}, {'signature': [1, 1], 'basis': ['e', 'e1', 'e2', 'e21']},
          {'signature': [1, 1, 1], 'basis': ['e', 'e1', 'e2', 'e3', 'e12', 'e31', 'e23', 'e123']},
          {'signature': [1, 1, 1], 'basis': ['e', 'e3', 'e2', 'e1', 'e12', 'e13', 'e23', 'e321']},
-         {'p': 1, 'q': 1, 'r': 1}, {'signature': [0, -1, 1]}, {'signature': [1, 0, -1]}, {'p': 0, 'q': 0, 'r': 2}, {'p': 4, 'q': 0, 'r': 0}]
+         {'p': 1, 'q': 1, 'r': 1}, {'signature': [0, -1, 1]}, {'signature': [1, 0, -1]}, {'p': 0, 'q': 0, 'r': 2}, {'p': 4, 'q': 0, 'r': 0},
+         # the same signatures under another start index (same metric, other generator names)
+         {'p': 2, 'q': 0, 'r': 0, 'start_index': 0}, {'p': 2, 'q': 0, 'r': 1, 'start_index': 1}, {'p': 3, 'q': 0, 'r': 0, 'start_index': 2},
+         {'p': 1, 'q': 1, 'r': 0, 'start_index': 0}]
     pairs = [(i, j) for i in range(len(R)) for j in range(len(R)) if i != j]
     rng.shuffle(pairs)
     if tier == 'quick':
@@ -279,7 +285,10 @@ def must_reject(A, B):
         return 'dimension'
     ma, mb = metric_by_name(A), metric_by_name(B)
     if set(ma) != set(mb):
-        return None     # only the naming (start index) differs -> not covered by the statement
+        # only the naming (start index) differs.  Not judged: the repository's own test suite (tests/test_kingdon.py, the 2DPGA
+        # comparison with Algebra(signature=[0, 1, 1], start_index=1)) relies on such algebras comparing equal, so rejecting them
+        # cannot be what the statement's "metric or basis differ" means for this code base.  Counted, see DESIGN 8.6.
+        return None
     if ma != mb:
         return 'metric'
     if list(A.canon2bin) != list(B.canon2bin):
@@ -328,7 +337,7 @@ def reject_unit(ctx, unit):
             if st == 'timeout':
                 continue
             ctx.count({'metric': 'rejection_pairs_metric_differs', 'dimension': 'rejection_pairs_dimension_differs',
-                       'basis': 'rejection_basis_differs'}[why])
+                       'basis': 'rejection_basis_differs', 'start_index': 'rejection_start_index_differs'}[why])
             if why == 'metric' and (A.p, A.q, A.r) == (B.p, B.q, B.r):
                 ctx.count('rejection_same_pqr_different_order')
             ctx.case(cid)
